@@ -511,3 +511,114 @@ class SortByValueOrder(EnumContract):
 
 
 REGISTRY.append(SortByValueOrder())
+
+
+# =======================================================================================
+# C08 (tier P): keyword -> measure tables and monotone-surrogate lemmas
+
+
+class SortKeywordTables(Contract):
+    """`_measure` / `_marginal` hand the collator the blocks of the measure named by the
+    keyword, or of a measure of which the public value is a monotone transform; keywords
+    without a table entry raise NotImplementedError (not a fallback: listed)."""
+
+    name = "matrix.assembler:_BaseOrderHelper._measure / _SortRowsByMarginalHelper._marginal"
+    props = ("C08",)
+
+    # public value reported for the keyword = g(blocks of this measure), g monotone increasing
+    MEASURE = {
+        "COLUMN_BASE_UNWEIGHTED": ("column_unweighted_bases", "id"),
+        "COLUMN_BASE_WEIGHTED": ("column_weighted_bases", "id"),
+        "COLUMN_INDEX": ("column_index", "id"),
+        "COLUMN_PERCENT": ("column_proportions", "x100"),
+        "COLUMN_PERCENT_MOE": ("column_std_err", "xZ100"),
+        "COLUMN_SHARE_SUM": ("column_share_sum", "id"),
+        "COLUMN_STDDEV": ("column_proportion_variances", "sqrt"),
+        "COLUMN_STDERR": ("column_std_err", "id"),
+        "MEAN": ("means", "id"),
+        "POPULATION": ("population_proportions", "xpop"),
+        "POPULATION_MOE": ("population_std_err", "xZpop"),
+        "PVALUES": ("pvalues", "id"),
+        "ROW_BASE_UNWEIGHTED": ("row_unweighted_bases", "id"),
+        "ROW_BASE_WEIGHTED": ("row_weighted_bases", "id"),
+        "ROW_PERCENT": ("row_proportions", "x100"),
+        "ROW_PERCENT_MOE": ("row_std_err", "xZ100"),
+        "ROW_SHARE_SUM": ("row_share_sum", "id"),
+        "ROW_STDDEV": ("row_proportion_variances", "sqrt"),
+        "ROW_STDERR": ("row_std_err", "id"),
+        "STDDEV": ("stddev", "id"),
+        "SUM": ("sums", "id"),
+        "TABLE_PERCENT": ("table_proportions", "x100"),
+        "TABLE_PERCENT_MOE": ("table_std_err", "xZ100"),
+        "TABLE_STDDEV": ("table_proportion_variances", "sqrt"),
+        "TABLE_STDERR": ("table_std_err", "id"),
+        "TABLE_BASE_UNWEIGHTED": ("table_unweighted_bases", "id"),
+        "TABLE_BASE_WEIGHTED": ("table_weighted_bases", "id"),
+        "TOTAL_SHARE_SUM": ("total_share_sum", "id"),
+        "UNWEIGHTED_COUNT": ("unweighted_counts", "id"),
+        "UNWEIGHTED_VALID_COUNT": ("unweighted_counts", "id"),
+        "WEIGHTED_COUNT": ("weighted_counts", "id"),
+        "WEIGHTED_VALID_COUNT": ("weighted_counts", "id"),
+        "Z_SCORE": ("zscores", "id"),
+    }
+    MARGINAL = {
+        "BASE": "rows_unweighted_base",
+        "MARGIN": "rows_weighted_base",
+        "MARGIN_PROPORTION": "rows_table_proportion",
+        "SCALE_MEAN": "rows_scale_mean",
+        "SCALE_MEAN_STDDEV": "rows_scale_mean_stddev",
+        "SCALE_MEAN_STDERR": "rows_scale_mean_stderr",
+        "SCALE_MEDIAN": "rows_scale_median",
+    }
+
+    def configs(self):
+        return [dict(part="tables"), dict(part="lemmas")]
+
+    def run(self, B, cfg):
+        if cfg["part"] == "lemmas":
+            return self.lemmas(B)
+        M = B.enum("enums:MEASURE")
+        MG = B.enum("enums:MARGINAL")
+        OF = B.enum("enums:ORDER_FORMAT")
+        names = sorted(set(v[0] for v in self.MEASURE.values()) | set(self.MARGINAL.values()))
+        sent = {n: object() for n in names}
+        som = B.stub("second_order_measures", **sent)
+        for helper in ("_SortRowsByBaseColumnHelper", "_SortColumnsByBaseRowHelper", "_SortRowsByInsertedColumnHelper",
+                       "_SortColumnsByInsertedRowHelper", "_SortRowsByDerivedColumnHelper"):
+            for member in M:
+                spec_ = B.stub("order_spec", measure=member)
+                dims = (B.stub("rows", order_spec=spec_), B.stub("cols", order_spec=spec_))
+                h = B.new("matrix.assembler:" + helper, dims, som, OF.SIGNED_INDEXES)
+                if member.name in self.MEASURE:
+                    B.check("%s:%s" % (helper, member.name), h._measure is sent[self.MEASURE[member.name][0]])
+                else:
+                    try:
+                        h._measure
+                        B.check("%s:%s-unsupported" % (helper, member.name), False)
+                    except NotImplementedError:
+                        B.check("%s:%s-unsupported" % (helper, member.name), True)
+        for member in MG:
+            spec_ = B.stub("order_spec", marginal=member)
+            dims = (B.stub("rows", order_spec=spec_), B.stub("cols"))
+            h = B.new("matrix.assembler:_SortRowsByMarginalHelper", dims, som, OF.SIGNED_INDEXES)
+            B.check("marginal:" + member.name, h._marginal is sent[self.MARGINAL[member.name]])
+
+    def lemmas(self, B):
+        """x <= y  =>  g(x) <= g(y) for every surrogate transform g used above"""
+        x, y = B.real("x"), B.real("y")
+        k = B.real("k")
+        le = x <= y
+        B.check("x100-monotone", B.bor(B.bnot(le), 100 * x <= 100 * y))
+        B.check("xZ100-monotone", B.bor(B.bnot(le), 1.959964 * 100 * x <= 1.959964 * 100 * y))
+        B.check("sqrt-monotone", B.bor(B.bnot(B.band(le, x >= 0)), B.sqrt(x) <= B.sqrt(y)))
+        # population = proportion * (population * filtered fraction): monotone iff the
+        # product is positive; order-neutral when it is zero (all values equal)
+        B.check("xpop-monotone-for-positive-product", B.bor(B.bnot(B.band(le, k > 0)), k * x <= k * y))
+        B.check("xpop-neutral-for-zero-product", B.bor(B.bnot(k == 0), B.feq(k * x, k * y)))
+
+    def assumptions(self):
+        return ["F9 (not decided): sort by population / population_moe with a negative or NaN population x fraction product "
+                "is ordered by the proportions, not by the reported values"]
+
+
+REGISTRY.append(SortKeywordTables())
